@@ -70,15 +70,19 @@ def pass_contract(last="ctx.is_last_iteration"):
     ]
 
 FEV = "src/asm/resolver/eval.rs"
-eval_stub = Fn(FEV, "eval", slot="resolver", mode="stub", ret="res", ensures=LOUD)
+eval_stub = Fn(FEV, "eval", slot="resolver", mode="stub", ret="res", ensures=LOUD + [
+    C("the_value_of_the_expression", "res is Ok ==> res->Ok_0 == eval_of(old(fileserver), opts, decls, defs, ctx, expr)")])
+def failed_assert_clause(expr_path):
+    return C("a_failed_assertion_is_an_error_once_guessing_is_over",
+             "ctx.is_last_iteration && eval_of(old(fileserver), opts, decls, old(defs), ctx, &%s) is FailedConstraint ==> res is Err" % expr_path, ["C03", "C01"])
 
 def value_expect(name, shape):
     return Fn(FE, name, impl="Value", slot="expr", mode="stub", ret="res", key="Value::" + name,
               ensures=LOUD + [C("shape", shape)])
 
 value_stubs = [
-    value_expect("expect_error_or_bigint", "res is Ok ==> res->Ok_0 is Unknown || res->Ok_0 is FailedConstraint || res->Ok_0 is Integer"),
-    value_expect("expect_error_or_usize", "res is Ok ==> res->Ok_0 is Unknown || res->Ok_0 is FailedConstraint || res->Ok_0 is Integer"),
+    value_expect("expect_error_or_bigint", "res is Ok ==> (res->Ok_0 is Unknown || res->Ok_0 is FailedConstraint || res->Ok_0 is Integer) && (self is FailedConstraint ==> res->Ok_0 is FailedConstraint)"),
+    value_expect("expect_error_or_usize", "res is Ok ==> (res->Ok_0 is Unknown || res->Ok_0 is FailedConstraint || res->Ok_0 is Integer) && (self is FailedConstraint ==> res->Ok_0 is FailedConstraint)"),
     value_expect("expect_bool", "true"),
 ]
 
@@ -150,6 +154,7 @@ resolve_res = Fn(
     requires=[item_defined("res_directives", "ast_res"), BANK_REQ],
     ensures=pass_contract() + [
         C("resolved_means_unchanged", "res == %s ==> %s.reserve_size == %s.reserve_size" % (STABLE, idx("res_directives", "ast_res"), oidx("res_directives", "ast_res")), ["C02", "C09"]),
+        failed_assert_clause("ast_res.expr"),
         C("reserve_is_whole_addresses", "res is Ok ==> %s.reserve_size %% bank_of(old(defs), ctx.bank_ref).addr_unit == 0 || bank_of(old(defs), ctx.bank_ref).addr_unit == 0" % idx("res_directives", "ast_res"), ["C06"]),
         C("banks_untouched", "final(defs).bankdefs == old(defs).bankdefs", ["C02"]),
     ],
@@ -164,6 +169,7 @@ resolve_align = Fn(
     requires=[item_defined("align_directives", "ast_align")],
     ensures=pass_contract() + [
         C("resolved_means_unchanged", "res == %s ==> %s.align_size == %s.align_size" % (STABLE, idx("align_directives", "ast_align"), oidx("align_directives", "ast_align")), ["C02", "C09"]),
+        failed_assert_clause("ast_align.expr"),
         C("zero_alignment_rejected_in_last_pass", "res == %s && ctx.is_last_iteration ==> %s.align_size != 0" % (STABLE, idx("align_directives", "ast_align")), ["C06"]),
         C("banks_untouched", "final(defs).bankdefs == old(defs).bankdefs", ["C02"]),
     ],
@@ -175,6 +181,7 @@ resolve_addr = Fn(
     requires=[item_defined("addr_directives", "ast_addr"), BANK_REQ],
     ensures=pass_contract() + [
         C("resolved_means_unchanged", "res == %s ==> %s.address.val() == %s.address.val()" % (STABLE, idx("addr_directives", "ast_addr"), oidx("addr_directives", "ast_addr")), ["C02", "C09"]),
+        failed_assert_clause("ast_addr.expr"),
         C("inside_bank_in_last_pass",
           "res == %s && ctx.is_last_iteration ==> %s.address.val() >= bank_of(old(defs), ctx.bank_ref).addr_start.val()"
           " && (bank_of(old(defs), ctx.bank_ref).size is Some ==> (%s.address.val() - bank_of(old(defs), ctx.bank_ref).addr_start.val()) * bank_of(old(defs), ctx.bank_ref).addr_unit < bank_of(old(defs), ctx.bank_ref).size->0)"
